@@ -115,7 +115,15 @@ def run(ctx):
                     ctx.check('C20.W1', r is None, sa.name, 'strip:byte-dropped', sa.where(e), 'a byte that is not ESC is copied',
                               witness=None if r is None else {'blocks': r[0]})
     ctx.check('C20.W1', ncopy >= 1, sa.name, 'strip:esc-test', sa.loc, 'the ESC test was found (%d edges)' % ncopy)
-    ctx.floor('C20.W1', 17)
+    # the pipe is read until EOF: only the Subprocess itself closes / forgets its descriptor, and only when read() said so
+    who_may_write(ctx, 'C20.W1', 'Subprocess::fd_', {'Subprocess::Subprocess': 'init', 'Subprocess::Start': 'pipe creation',
+                                                      'Subprocess::OnPipeReady': 'EOF / error from read()'}, 'pipe descriptor')
+    opr = prog.fn('Subprocess::OnPipeReady')
+    for e in opr.calls('close'):
+        guarded(ctx, 'C20.W1', opr, e, lambda a: isinstance(strip(a), dict) and strip(a).get('k') == 'bin' and strip(a)['op'] == '<' and
+                const_value(strip(a)['l']) == 0 and mentions_var(strip(a)['r'], 'len'), False,
+                'the pipe is closed only when read() returned no data', construct='pipe:closed-before-EOF')
+    ctx.floor('C20.W1', 18)
 
     # ---- O1: failure header order ------------------------------------------------------------------
     R('C20.O1', 'O', 'for a failed command the FAILED line (outputs, exit code) and the full command '
